@@ -4,8 +4,12 @@ CONSTANTS
   KeysNested = {"a"}
   Depth = 2
   Export = FALSE
+  Catalogue = "kinds"
+  SizeTest = "order"
   Caught = {"TypeError","ValueError"}
 INVARIANT RoundTrip
 INVARIANT NoError
+INVARIANT SizeArith
+INVARIANT SizeFirm
 CONSTRAINT Emit
 CHECK_DEADLOCK FALSE
